@@ -1,19 +1,22 @@
 #!/bin/sh
 # Self-test of the machinery (never run by a registered command): every patch in
 # selftest/patches (named <PROP>_<what>.diff) must make ./check <PROP> exit 1 with a VIOLATION line;
-# patches in selftest/refactors must NOT produce a VIOLATION (exit 0 or 2).
-# Works on a scratch worktree (VERIF_REPO); /repo is not touched.
-WT=/var/tmp/selftest_wt
-cd /verif || exit 1
-git -C /repo worktree remove --force $WT 2>/dev/null
-git -C /repo worktree add -q --detach $WT HEAD || exit 1
+# patches in selftest/refactors (harmless edits: renamed locals, reordered independent statements,
+# extracted temporaries) must NOT produce a VIOLATION (exit 0, or 2 = undecided).
+# Works on a scratch worktree (VERIF_REPO); /repo is not touched.  Runs from any copy of /verif
+# (e.g. `vp run -- sh selftest/run.sh`).  usage: run.sh [name prefix]
+HERE="$(cd "$(dirname "$0")/.." && pwd)"
+WT=/var/tmp/selftest_wt_$$
+cd "$HERE" || exit 1
+git -C /repo worktree add -q --detach "$WT" HEAD || exit 1
 fail=0
 for f in selftest/patches/${1:-}*.diff; do
+  [ -f "$f" ] || continue
   pid=$(basename "$f" | cut -d_ -f1)
   [ -f "props/$pid.py" ] || { echo "SKIP $(basename "$f") (no check for $pid)"; continue; }
-  git -C $WT checkout -q -- .
-  git -C $WT apply "/verif/$f" || { echo "APPLY-FAILED $(basename "$f")"; continue; }
-  out=$(VERIF_REPO=$WT ./check "$pid" --tier quick 2>&1); code=$?
+  git -C "$WT" checkout -q -- .
+  git -C "$WT" apply "$HERE/$f" || { echo "APPLY-FAILED $(basename "$f")"; continue; }
+  out=$(VERIF_REPO="$WT" ./check "$pid" --tier quick 2>&1); code=$?
   v=$(echo "$out" | grep -c '^VIOLATION')
   if [ $code -eq 1 ] && [ "$v" -ge 1 ]; then echo "CAUGHT  $(basename "$f")"; else echo "MISSED  $(basename "$f") exit=$code"; fail=1; fi
 done
@@ -21,11 +24,11 @@ for f in selftest/refactors/${1:-}*.diff; do
   [ -f "$f" ] || continue
   pid=$(basename "$f" | cut -d_ -f1)
   [ -f "props/$pid.py" ] || continue
-  git -C $WT checkout -q -- .
-  git -C $WT apply "/verif/$f" || { echo "APPLY-FAILED $(basename "$f")"; continue; }
-  out=$(VERIF_REPO=$WT ./check "$pid" --tier quick 2>&1); code=$?
+  git -C "$WT" checkout -q -- .
+  git -C "$WT" apply "$HERE/$f" || { echo "APPLY-FAILED $(basename "$f")"; continue; }
+  out=$(VERIF_REPO="$WT" ./check "$pid" --tier quick 2>&1); code=$?
   if [ $code -eq 1 ]; then echo "FALSE-ALARM $(basename "$f")"; fail=1; else echo "QUIET   $(basename "$f") exit=$code"; fi
 done
-git -C /repo worktree remove --force $WT
+git -C /repo worktree remove --force "$WT"
 git checkout -q -- evidence 2>/dev/null
 exit $fail
